@@ -53,6 +53,9 @@ def main():
         if got != os.path.realpath(repo):
             raise RuntimeError(f"spatialpandas imported from {got}, expected {repo}")
         mod = importlib.import_module(f"vmon.props.{a.prop.lower()}")
+        if getattr(mod, "USE_CONTRACTS", False):
+            from vmon import contracts
+            contracts.install(ctx)
         if a.replay:
             case = json.load(open(a.replay))
             mod.replay(ctx, case)
